@@ -20,25 +20,13 @@ func checkC05(c *Ctx, r *Report) {
 			r.Fatalf("%v", err)
 			return
 		}
-		f := NewFolder(p)
 		// (a)
 		if fn := p.MustFunc(r, "sm4.NewCipher"); fn != nil {
-			n := 0
-			for _, b := range fn.Blocks {
-				for _, in := range b.Instrs {
-					call, ok := in.(*ssa.Call)
-					if !ok || call.Call.StaticCallee() == nil || !strings.HasPrefix(call.Call.StaticCallee().Name(), "newCipher") {
-						continue
-					}
-					n++
-					ps := newPathSym(p, fn, f)
-					ps.WalkTo(b)
-					checkInventory(r, p, ps, "["+arch+"] sm4.NewCipher -> "+call.Call.StaticCallee().Name(), p.InstrPos(call), []guardReq{
-						{"(len(key), =, 16, error)", []string{"len(key) == 16"}, "error"},
-					}, nil)
-				}
+			// every outcome of NewCipher that returns a cipher has len(key) == 16 on its path; the others return (nil, error)
+			if g := newGlueRun(r, p, arch, "sm4.NewCipher", nil); g != nil {
+				g.keySizeGuard()
 			}
-			r.Check(n >= 1, "KEY-SIZE-GUARD", "["+arch+"] sm4.NewCipher constructs through newCipher", p.Pos(fn.Pos()), fmt.Sprintf("%d construction call sites", n))
+			glueBlocks(r, p, arch, map[string]bool{"C05block": true})
 			// newCipher* are not reachable from anywhere else in non-test code
 			for _, g := range p.RepoFuncs() {
 				if g == fn || len(g.Blocks) == 0 {
@@ -97,7 +85,6 @@ func checkC05(c *Ctx, r *Report) {
 			}
 		}
 		// (c) sibling wiring
-		c05Wiring(r, p, arch)
 		if arch == "386" || arch == "amd64" {
 			c05PortableSchedule(r, p, arch)
 		}
